@@ -77,6 +77,7 @@ type GSummary struct {
 	RepModel    map[string]int
 	Probes      int
 	TagCount    map[string]int
+	ClassOf     map[string]string // state key -> class (when the harness reports classes)
 }
 
 type GFound struct {
@@ -169,7 +170,7 @@ func GWorker(models []GModel) {
 
 // GExploreAll runs the breadth-first search of every model to fixpoint (or its depth bound).
 func GExploreAll(r *Run, models []GModel) *GSummary {
-	sum := &GSummary{PerModel: map[string][2]int{}, Found: map[string]*GFound{}, Graphs: map[string]*Graph{}, Reps: map[string][]string{}, RepModel: map[string]int{}, TagCount: map[string]int{}}
+	sum := &GSummary{PerModel: map[string][2]int{}, Found: map[string]*GFound{}, Graphs: map[string]*Graph{}, Reps: map[string][]string{}, RepModel: map[string]int{}, TagCount: map[string]int{}, ClassOf: map[string]string{}}
 	pool := NewPool(r.NProc, os.Args[1:]...)
 	defer pool.Close()
 	type st struct {
@@ -187,6 +188,9 @@ func GExploreAll(r *Run, models []GModel) *GSummary {
 			sum.addFound(f, m.Name, nil)
 		}
 		seen[i][v.Key] = 0
+		if v.Class != "" {
+			sum.ClassOf[v.Key] = v.Class
+		}
 		frontier[i] = [][]string{nil}
 		g := &Graph{Index: map[string]int{}}
 		g.Keys = append(g.Keys, v.Key)
@@ -253,6 +257,7 @@ func GExploreAll(r *Run, models []GModel) *GSummary {
 					continue
 				}
 				if s.Class != "" {
+					sum.ClassOf[s.Key] = s.Class
 					rk := m.Name + "|" + s.Class
 					if _, ok := sum.Reps[rk]; !ok {
 						sum.Reps[rk] = h2
